@@ -268,7 +268,7 @@ type tagInterceptor struct {
 
 func (t *tagInterceptor) WrapUnary(next connect.UnaryFunc) connect.UnaryFunc {
 	return func(ctx context.Context, req connect.AnyRequest) (connect.AnyResponse, error) {
-		if o := t.w.byID[req.Header().Get(callHeader)]; o != nil && !req.Spec().IsClient {
+		if o := t.w.byID[req.Header().Get(callHeader)]; o != nil {
 			o.InterceptLog = append(o.InterceptLog, t.tag+":in")
 			returned := false
 			defer func() {
@@ -281,6 +281,12 @@ func (t *tagInterceptor) WrapUnary(next connect.UnaryFunc) connect.UnaryFunc {
 			if o.Plan.InterceptorErr && t.tag == "i0" {
 				returned = true
 				return nil, o.Plan.HErr.build(ctx)
+			}
+			if typed, ok := req.(*connect.Request[Msg]); ok && o.Plan.MirrorBy == t.tag {
+				// a traffic-mirroring interceptor: the very request object goes to
+				// a shadow client (whose transport is down) before the call proceeds
+				down := connect.NewClient[Msg, Msg](downDoer{}, "http://shadow.test/sim.v1.Shadow/Call")
+				_, _ = down.CallUnary(ctx, typed)
 			}
 			resp, err := next(ctx, req)
 			returned = true
